@@ -831,9 +831,22 @@ impl GraphWorld {
             }
         }
         let transient: BTreeSet<Key> = if transient_roots.is_empty() { BTreeSet::new() } else { m.reach(&transient_roots) };
+        // Within a round the cone only changes when a bind closure runs. After the last bind closure of the round it equals
+        // the end cone, so the transient allowance covers only invocations logged *before* that last closure run: a node that
+        // runs after everything has been released is outside every cone the engine could have believed in (seed C05-a: a
+        // released node left in the recompute heap).
+        let last_bind_pos: Option<usize> = log.iter().rposition(|e| matches!(e, Ev::BindRun { .. }));
+        let last_run_pos = |k: &Key| -> Option<usize> { log.iter().rposition(|e| matches!(e, Ev::Run { key, .. } | Ev::FoldDone { key, .. } | Ev::FoldStep { key, .. } if key == k)) };
         let allowed_cone = |k: &Key| -> bool {
-            if out.cone_start.contains(k) || out.cone_end.contains(k) || transient.contains(k) {
+            if out.cone_start.contains(k) || out.cone_end.contains(k) {
                 return true;
+            }
+            if transient.contains(k) {
+                match (last_run_pos(k), last_bind_pos) {
+                    (Some(r), Some(b)) if r < b => return true,
+                    (None, _) => return true,
+                    _ => {}
+                }
             }
             // nodes created during this round by a bind that was needed (DESIGN §8)
             let mut cur = k;
